@@ -25,7 +25,10 @@ type ReplayCase struct {
 	// documented port bindings) and the copy is presented on the OTHER transport:
 	// recorded datagrams are written to a TCP connection one by one, a
 	// recorded TCP segment is sent as one datagram.
-	Cross     bool            `json:"cross,omitempty"`
+	Cross bool `json:"cross,omitempty"`
+	// Restart: between recording and replay the server (and client) are
+	// stopped and a new server is started in the same process on the same port.
+	Restart   bool            `json:"restart,omitempty"`
 	Boundary  int             `json:"boundary,omitempty"`
 	DelayMs   int             `json:"delayMs,omitempty"`
 	AfterEnd  bool            `json:"afterEnd,omitempty"` // the original session is closed before the replay
@@ -66,6 +69,7 @@ func genReplay(t *rapid.T) ReplayCase {
 	c.ClientPat = e2e.GenPattern(t, "cp", 1)
 	c.ServerPat = e2e.GenPattern(t, "sp", 1)
 	c.Salt = rapid.Uint64().Draw(t, "salt")
+	c.Restart = rapid.IntRange(0, 5).Draw(t, "restart") == 0
 	if rapid.IntRange(0, 3).Draw(t, "cross") == 0 {
 		c.Cross = true
 		if rapid.Bool().Draw(t, "crossLE") {
@@ -183,6 +187,20 @@ func propReplay(c ReplayCase) (o pbt.Outcome) {
 		time.Sleep(time.Duration(c.DelayMs) * time.Millisecond)
 	}
 
+	if c.Restart {
+		if !env.StopBounded(20 * time.Second) {
+			o.Inconclusive = "restart: the first server did not stop within 20 s"
+			return
+		}
+		env2, err := e2e.Start(cfg, sn, pn)
+		if err != nil {
+			o.Inconclusive = "restart: " + err.Error()
+			return
+		}
+		env = env2
+		defer env2.StopBounded(3 * time.Second)
+		genuineAccepts = 0
+	}
 	// concurrently, a fresh genuine connection must still work
 	freshDone := make(chan *e2e.RunResult, 1)
 	if c.Fresh {
@@ -288,6 +306,7 @@ func propReplay(c ReplayCase) (o pbt.Outcome) {
 	o.Label("afterEnd=%v", c.AfterEnd)
 	o.Label("sessions=%d", nSess)
 	o.Label("crossTransport=%v", c.Cross)
+	o.Label("serverRestarted=%v", c.Restart)
 	o.Label("afterCleanup=%v", c.AfterEnd && c.DelayMs > 5000)
 	o.Label("fresh=%v", c.Fresh)
 	o.Label("delay>=300=%v", c.DelayMs >= 300)
